@@ -152,6 +152,9 @@ func (g *Gateway) subscriptionHandler(w http.ResponseWriter, r *http.Request) {
 				return
 			}
 
+			// an id which is already in use is taken over: stop what was running under it,
+			// otherwise nothing could ever stop it
+			subDict.Clean(subMsg.ID)
 			subDict[subMsg.ID] = subEntry
 
 			go subEntry.Listen(conn)
